@@ -22,9 +22,16 @@ LEVEL = 'model_checking'
 
 VALS = {2: [1.5, -0.25, 153.0, 0.0], 7: [1e-3, 2.5, -1e300, 0.0], 12: [-128, 5, 127, 0], 13: [-300, 7, 0, -32768], 14: [-70000, 2147483647, 0, -2147483648], 15: [255, 0], 16: [65535, 256, 0],
         17: [4000000000, 1, 0, 4294967295], 18: [0, 127, 128, 16383, 16384], 19: [b'', b'ID', b'LONGER-IDENT.1'], 20: [b'', b'some text', b'x' * 200],
+        5: [1.0, -118.625, 0.0, 0.5], 6: [1.0, 4.0, -2.0, 0.5, 0.0, -1024.0, 0.25], 22: [0, 1, 127, 128, 70000],
         21: [(1987, 0, 4, 19, 21, 20, 15, 620), (2021, 2, 12, 31, 23, 59, 59, 999)], 23: [(1, 0, b'CH1'), (300, 2, b'')],
         24: [(b'CHANNEL', (1, 0, b'X')), (b'', (0, 0, b'Y'))], 26: [0, 1], 27: [b'm/s', b'', b'0.1 in']}
 CODES = sorted(VALS)
+# (ISINGL values are handed to the encoder as their four bytes; VSINGL values are powers of two, on which every reading of the format agrees)
+IBM5 = {1.0: bytes.fromhex('41100000'), -118.625: bytes.fromhex('c276a000'), 0.0: bytes(4), 0.5: bytes.fromhex('40800000')}
+
+
+def raw(rc, vals):
+    return [IBM5[v] for v in vals] if rc == 5 and vals is not None else vals
 COUNTS = [1, 2, 3, 0, 1, 2, 3, 0, 1, 2, 130, 300]
 
 
@@ -64,7 +71,7 @@ def concretize(st, rot, rng):
         units = rng.choice([b'm', b'ft/s', b'']) if 'U' in has else None
         erc, ecnt = (rc if rc is not None else 19), (count if count is not None else 1)
         vals = rot.values(erc, ecnt) if 'V' in has else None
-        out += GL.attr_component(ta['role'], ['L'] + sorted(has), label=b'ATTR%d' % c, count=count, rc=rc, units=units, values=vals, value_rc=erc)
+        out += GL.attr_component(ta['role'], ['L'] + sorted(has), label=b'ATTR%d' % c, count=count, rc=rc, units=units, values=raw(erc, vals), value_rc=erc)
         t_conc.append(dict(count=ecnt, rc=erc, units=units if units is not None else b'', value=vals, role=ta['role']))
     expected = []
     for o, row in enumerate(st['objs']):
@@ -88,7 +95,7 @@ def concretize(st, rot, rng):
             ecnt = count if count is not None else tc['count']
             eunits = units if units is not None else tc['units']
             vals = rot.values(erc, ecnt) if 'V' in has else None
-            out += GL.attr_component('ATTRIB', sorted(has), count=count, rc=rc, units=units, values=vals, value_rc=erc)
+            out += GL.attr_component('ATTRIB', sorted(has), count=count, rc=rc, units=units, values=raw(erc, vals), value_rc=erc)
             erow.append(dict(kind='cell', count=ecnt, rc=erc, units=eunits, value=vals if vals is not None else tc['value']))
         expected.append((name, erow))
     return out, t_conc, expected
